@@ -13,6 +13,7 @@ import gc
 import pickle
 
 from ..core import Violation, HarnessError, stream, sut, exc_name
+from ..core import deep
 from ..values import OBJECTS, raw
 from . import c04, c05, c06, c07
 
@@ -66,8 +67,8 @@ class Prop:
     def gen(self, seed):
         c = stream(seed, "config")
         r = stream(seed, "ops")
-        npool = c.randint(2, 4)
-        nops = c.choice([4, 8, 12, 18, 24, 30])
+        npool = deep(c, [2, 3, 4], [5, 6])
+        nops = deep(c, [4, 8, 12, 18, 24, 30], [45, 60])
         invalid = c.choice([0.05, 0.15])
         restart_rate = c.choice([0.05, 0.1, 0.2])
         ctr = [100]
